@@ -5,21 +5,29 @@
 //
 //	x/rvesting/types/keys.go            ModuleName
 //	x/rvesting/types/param.go           parameter keys, ParamSetPairs (key, field, type, validator), the rejecting
-//	                                    guards of validatePerBlockReward in source order, the shape of Params.validate,
+//	                                    guards of validatePerBlockReward in evaluation order, the shape of Params.validate,
 //	                                    DefaultParams (evaluated: sdk.NewCoins / NewCoin / NewInt / NewIntWithDecimal,
 //	                                    types.NewTeleCoin resolved through types/coin.go)
 //	x/rvesting/types/genesis.pb.go      field types of Params
 //	x/rvesting/types/genesis.go         steps of ValidateGenesis, NewGenesisState / DefaultGenesisState (From, InitReward)
 //	x/rvesting/types/expected_keeper.go method names of the BankKeeper interface the module is given
-//	x/rvesting/keeper/genesis.go        statements of InitGenesis in source order, shape of ExportGenesis
-//	x/rvesting/keeper/keeper.go         sender / recipient of SendVestedCoins, account read by GetRemainingCoin,
-//	                                    which NewKeeper parameter becomes feeCollectorName
+//	x/rvesting/keeper/*.go              statements of InitGenesis in evaluation order, shape of ExportGenesis, which
+//	                                    NewKeeper parameter becomes feeCollectorName
+//	x/rvesting/module/abci.go + keeper  every bank call reachable from BeginBlocker: sender / recipient of the module-to-
+//	                                    module send, the account whose balance is read
 //	app/app.go                          maccPerms, allowedReceivingModAcc, SetOrderBeginBlockers, SetOrderInitGenesis,
 //	                                    the fee-collector argument of rvestingkeeper.NewKeeper and distrkeeper.NewKeeper
 //
-// A statement the translator does not know becomes an explicit `…Unknown "<source>"` constructor: the obligations of
-// Props/C20.v that read the term then fail for C20 only (other properties' builds are not affected).  Only a Go file
-// that does not parse, or a missing source file, is exit 1.
+// The three functions whose STATEMENTS are regenerated (validatePerBlockReward, ValidateGenesis, InitGenesis) are read by a
+// small symbolic walker, not by statement shape: expressions are put in a canonical form in which locals are replaced by
+// their definitions, the parameters by fixed names ($L reward list, $C current coin, $I its index, $G genesis state, $K keeper,
+// $ctx), getters by fields; calls of unexported helpers, keeper methods and local closures are INLINED with parameter
+// substitution (also in tail position and under `if err := f(..); err != nil { return err }`); `if c { return }` followed by S
+// and `if !c { S }` give the same guarded steps; a type switch and a comma-ok assertion, `len(x) == 0` / `x.Empty()` / `x == ""`,
+// `||` chains, tagless switches, a seen-map and a scan of the earlier entries (reward[:i]) are the same guards.  What the walker
+// does not understand becomes an explicit `…Unknown "<source>"` constructor: the obligations of Props/C20.v that read the term
+// then fail for C20 only.  The translator never exits non-zero because of the Go source (a file that is missing or does not
+// parse yields Unknown terms); only a missing -out is an error.
 package main
 
 import (
@@ -34,14 +42,10 @@ import (
 	"math/big"
 	"os"
 	"path/filepath"
+	"sort"
 	"strconv"
 	"strings"
 )
-
-func die(f string, a ...interface{}) {
-	fmt.Fprintf(os.Stderr, "rvesting: "+f+"\n", a...)
-	os.Exit(1)
-}
 
 var fset = token.NewFileSet()
 
@@ -54,13 +58,36 @@ func src(n ast.Node) string {
 	return strings.Join(strings.Fields(b.String()), " ")
 }
 
+// parse returns nil when the file is missing or does not parse (every term read from it degrades to Unknown)
 func parse(repo, rel string) *ast.File {
-	p := filepath.Join(repo, rel)
-	f, err := parser.ParseFile(fset, p, nil, parser.ParseComments)
+	f, err := parser.ParseFile(fset, filepath.Join(repo, rel), nil, parser.ParseComments)
 	if err != nil {
-		die("cannot parse %s: %v", rel, err)
+		fmt.Fprintf(os.Stderr, "rvesting: cannot read %s: %v (terms degrade to Unknown)\n", rel, err)
+		return nil
 	}
 	return f
+}
+
+func parseDir(repo, rel string) []*ast.File {
+	var out []*ast.File
+	ents, err := os.ReadDir(filepath.Join(repo, rel))
+	if err != nil {
+		return nil
+	}
+	var names []string
+	for _, e := range ents {
+		n := e.Name()
+		if strings.HasSuffix(n, ".go") && !strings.HasSuffix(n, "_test.go") && !strings.HasSuffix(n, ".pb.go") && !strings.HasSuffix(n, ".pb.gw.go") {
+			names = append(names, n)
+		}
+	}
+	sort.Strings(names)
+	for _, n := range names {
+		if f := parse(repo, filepath.Join(rel, n)); f != nil {
+			out = append(out, f)
+		}
+	}
+	return out
 }
 
 // ---------------------------------------------------------------- Coq literals
@@ -73,7 +100,6 @@ func coqBytes(s string) string {
 	return "[" + strings.Join(parts, ";") + "]"
 }
 
-// bytes literal followed by the text as a comment (comment-safe)
 func coqStr(s string) string {
 	c := strings.NewReplacer("(*", "( *", "*)", "* )", "\"", "'").Replace(s)
 	return coqBytes(s) + " (* " + c + " *)"
@@ -86,36 +112,76 @@ func coqList(items []string) string {
 	return "[\n   " + strings.Join(items, ";\n   ") + "\n]"
 }
 
-// ---------------------------------------------------------------- lookup helpers
+// ---------------------------------------------------------------- function tables
 
-func funcDecl(f *ast.File, recv, name string) *ast.FuncDecl {
-	for _, d := range f.Decls {
-		fd, ok := d.(*ast.FuncDecl)
-		if !ok || fd.Name.Name != name {
-			continue
+type fn struct {
+	recv    string // receiver variable name ("" for plain functions and closures)
+	params  []string
+	ptypes  []string
+	body    *ast.BlockStmt
+	closure bool // a func literal: sees the variables of the enclosing body
+}
+
+func paramsOf(ft *ast.FuncType) (names, types []string) {
+	if ft.Params == nil {
+		return
+	}
+	for _, fl := range ft.Params.List {
+		if len(fl.Names) == 0 {
+			names = append(names, "_")
+			types = append(types, src(fl.Type))
 		}
-		if recv == "" {
-			if fd.Recv == nil {
-				return fd
-			}
-			continue
-		}
-		if fd.Recv == nil || len(fd.Recv.List) != 1 {
-			continue
-		}
-		t := fd.Recv.List[0].Type
-		if s, ok := t.(*ast.StarExpr); ok {
-			t = s.X
-		}
-		if id, ok := t.(*ast.Ident); ok && id.Name == recv {
-			return fd
+		for _, n := range fl.Names {
+			names = append(names, n.Name)
+			types = append(types, src(fl.Type))
 		}
 	}
-	return nil
+	return
+}
+
+// funcs: plain functions by name; methods: by "Recv.name"
+func tables(files []*ast.File) (funcs map[string]*fn, methods map[string]*fn) {
+	funcs, methods = map[string]*fn{}, map[string]*fn{}
+	for _, f := range files {
+		if f == nil {
+			continue
+		}
+		for _, d := range f.Decls {
+			fd, ok := d.(*ast.FuncDecl)
+			if !ok || fd.Body == nil {
+				continue
+			}
+			ns, ts := paramsOf(fd.Type)
+			x := &fn{params: ns, ptypes: ts, body: fd.Body}
+			if fd.Recv == nil {
+				funcs[fd.Name.Name] = x
+				continue
+			}
+			if len(fd.Recv.List) != 1 {
+				continue
+			}
+			t := fd.Recv.List[0].Type
+			if s, ok := t.(*ast.StarExpr); ok {
+				t = s.X
+			}
+			id, ok := t.(*ast.Ident)
+			if !ok {
+				continue
+			}
+			if len(fd.Recv.List[0].Names) == 1 {
+				x.recv = fd.Recv.List[0].Names[0].Name
+			}
+			methods[id.Name+"."+fd.Name.Name] = x
+		}
+	}
+	return
 }
 
 func stringConsts(f *ast.File) map[string]string {
 	m := map[string]string{}
+	if f == nil {
+		return m
+	}
 	for pass := 0; pass < 3; pass++ {
 		for _, d := range f.Decls {
 			gd, ok := d.(*ast.GenDecl)
@@ -155,6 +221,1267 @@ func stringConsts(f *ast.File) map[string]string {
 	return m
 }
 
+// ---------------------------------------------------------------- canonical expressions
+
+type pcall struct {
+	e *env
+	c *ast.CallExpr
+}
+
+type env struct {
+	vars    map[string]string // identifier -> canonical expression
+	clos    map[string]*fn    // local closures
+	calls   map[string]*pcall // canonical string of a call bound to a variable -> the call (shared)
+	methods map[string]*fn    // methods (of the keeper) reachable through $K
+	funcs   map[string]*fn    // functions of the package the current body lives in
+	kfuncs  map[string]*fn    // functions of the keeper package (bodies of $K methods live there)
+	recvT   string            // receiver type name for $K method lookup
+	depth   int
+}
+
+func newEnv(funcs, kfuncs, methods map[string]*fn, recvT string) *env {
+	return &env{vars: map[string]string{}, clos: map[string]*fn{}, calls: map[string]*pcall{}, methods: methods, funcs: funcs, kfuncs: kfuncs, recvT: recvT}
+}
+
+func (e *env) fork() *env {
+	c := &env{vars: map[string]string{}, clos: map[string]*fn{}, calls: e.calls, methods: e.methods, funcs: e.funcs, kfuncs: e.kfuncs, recvT: e.recvT, depth: e.depth}
+	for k, v := range e.vars {
+		c.vars[k] = v
+	}
+	for k, v := range e.clos {
+		c.clos[k] = v
+	}
+	return c
+}
+
+// singleReturn: the expression of a body that is exactly `return <expr>`
+func singleReturn(b *ast.BlockStmt) ast.Expr {
+	if b == nil || len(b.List) != 1 {
+		return nil
+	}
+	r, ok := b.List[0].(*ast.ReturnStmt)
+	if !ok || len(r.Results) != 1 {
+		return nil
+	}
+	return r.Results[0]
+}
+
+// identifiers that are re-assigned (`=`, op=, ++/--) somewhere in the body: never substituted by their first value
+func mutated(b ast.Node) map[string]bool {
+	m := map[string]bool{}
+	if b == nil {
+		return m
+	}
+	ast.Inspect(b, func(n ast.Node) bool {
+		switch s := n.(type) {
+		case *ast.AssignStmt:
+			if s.Tok != token.DEFINE {
+				for _, l := range s.Lhs {
+					if id, ok := l.(*ast.Ident); ok && id.Name != "err" && id.Name != "_" {
+						m[id.Name] = true
+					}
+				}
+			}
+		case *ast.IncDecStmt:
+			if id, ok := s.X.(*ast.Ident); ok {
+				m[id.Name] = true
+			}
+		}
+		return true
+	})
+	return m
+}
+
+// environment for the body of f called with the given canonical receiver / arguments
+func (e *env) bind(f *fn, recvCanon string, args []string) *env {
+	c := &env{vars: map[string]string{}, clos: map[string]*fn{}, calls: e.calls, methods: e.methods, funcs: e.funcs, kfuncs: e.kfuncs, recvT: e.recvT, depth: e.depth + 1}
+	if f.closure {
+		for k, v := range e.vars {
+			c.vars[k] = v
+		}
+		for k, v := range e.clos {
+			c.clos[k] = v
+		}
+	}
+	if f.recv != "" {
+		c.vars[f.recv] = recvCanon
+		if recvCanon == "$K" && e.kfuncs != nil {
+			c.funcs = e.kfuncs
+		}
+	}
+	for i, p := range f.params {
+		if i < len(args) {
+			c.vars[p] = args[i]
+		}
+		if i < len(f.ptypes) && f.ptypes[i] == "sdk.Context" {
+			c.vars[p] = "$ctx"
+		}
+	}
+	for n := range mutated(f.body) {
+		if _, isParam := c.vars[n]; !isParam {
+			c.vars[n] = "mut:" + n
+		}
+	}
+	return c
+}
+
+// callee resolves a call to a function of the package / a method on $K / a closure; nil if it is none of them
+func (e *env) callee(c *ast.CallExpr) (*fn, string) {
+	switch f := c.Fun.(type) {
+	case *ast.Ident:
+		if x, ok := e.clos[f.Name]; ok {
+			return x, ""
+		}
+		if _, shadow := e.vars[f.Name]; shadow {
+			return nil, ""
+		}
+		if x, ok := e.funcs[f.Name]; ok {
+			return x, ""
+		}
+	case *ast.SelectorExpr:
+		r := e.canon(f.X)
+		if r == "$K" && e.recvT != "" {
+			if x, ok := e.methods[e.recvT+"."+f.Sel.Name]; ok {
+				return x, r
+			}
+		}
+	}
+	return nil, ""
+}
+
+func (e *env) canonArgs(args []ast.Expr) []string {
+	out := make([]string, len(args))
+	for i, a := range args {
+		out[i] = e.canon(a)
+	}
+	return out
+}
+
+func (e *env) canon(x ast.Expr) string {
+	if x == nil {
+		return ""
+	}
+	switch v := x.(type) {
+	case *ast.Ident:
+		if s, ok := e.vars[v.Name]; ok {
+			return s
+		}
+		return v.Name
+	case *ast.ParenExpr:
+		return e.canon(v.X)
+	case *ast.BasicLit:
+		return v.Value
+	case *ast.SelectorExpr:
+		return e.canon(v.X) + "." + v.Sel.Name
+	case *ast.StarExpr:
+		return e.canon(v.X)
+	case *ast.UnaryExpr:
+		if v.Op == token.AND {
+			return e.canon(v.X)
+		}
+		return v.Op.String() + e.canon(v.X)
+	case *ast.BinaryExpr:
+		return "(" + e.canon(v.X) + " " + v.Op.String() + " " + e.canon(v.Y) + ")"
+	case *ast.IndexExpr:
+		s := e.canon(v.X) + "[" + e.canon(v.Index) + "]"
+		if s == "$L[$I]" {
+			return "$C"
+		}
+		return s
+	case *ast.SliceExpr:
+		return e.canon(v.X) + "[" + e.canon(v.Low) + ":" + e.canon(v.High) + "]"
+	case *ast.TypeAssertExpr:
+		return e.canon(v.X) + ".(" + src(v.Type) + ")"
+	case *ast.CallExpr:
+		// getters of the generated protobuf structs: X.GetF() = X.F
+		if sel, ok := v.Fun.(*ast.SelectorExpr); ok && len(v.Args) == 0 && strings.HasPrefix(sel.Sel.Name, "Get") && len(sel.Sel.Name) > 3 {
+			r := e.canon(sel.X)
+			if strings.HasPrefix(r, "$G") || strings.HasPrefix(r, "$C") || strings.HasPrefix(r, "$P") || strings.HasPrefix(r, "$E") {
+				return r + "." + sel.Sel.Name[3:]
+			}
+		}
+		// single-expression helpers are inlined in expressions
+		if e.depth < 8 {
+			if f, recv := e.callee(v); f != nil {
+				if r := singleReturn(f.body); r != nil {
+					return e.bind(f, recv, e.canonArgs(v.Args)).canon(r)
+				}
+			}
+		}
+		return e.canon(v.Fun) + "(" + strings.Join(e.canonArgs(v.Args), ", ") + ")"
+	case *ast.FuncLit:
+		return "func" + src(v.Body)
+	}
+	return src(x)
+}
+
+// bindVar records `name := rhs`; a call that can be inlined is remembered so that a later `if name != nil` inlines it
+func (e *env) bindVar(name string, rhs ast.Expr) {
+	if fl, ok := rhs.(*ast.FuncLit); ok {
+		ns, ts := paramsOf(fl.Type)
+		e.clos[name] = &fn{params: ns, ptypes: ts, body: fl.Body, closure: true}
+		return
+	}
+	if strings.HasPrefix(e.vars[name], "mut:") && name != "err" {
+		return
+	}
+	s := e.canon(rhs)
+	e.vars[name] = s
+	if c, ok := rhs.(*ast.CallExpr); ok {
+		e.calls[s] = &pcall{e.fork(), c}
+	}
+}
+
+func unq(s string) string {
+	if strings.HasPrefix(s, "(") && strings.HasSuffix(s, ")") {
+		depth := 0
+		for i, ch := range s {
+			if ch == '(' {
+				depth++
+			} else if ch == ')' {
+				depth--
+				if depth == 0 && i != len(s)-1 {
+					return s
+				}
+			}
+		}
+		return s[1 : len(s)-1]
+	}
+	return s
+}
+
+// ---------------------------------------------------------------- walker
+
+type exit int
+
+const (
+	fallsThrough exit = iota // reached the end of the list
+	returnsOK                // ends with `return nil` / `return` (or a tail call that was inlined)
+	unknownFlow
+)
+
+// A walker turns a function body into a flat list of items:
+//
+//	kind "reward":    "L:<lguard>" (outside the loop) and "C:<cguard>" (inside), in evaluation order
+//	kind "gvalidate": "(<under From != ''>, <gvstep>)"
+//	kind "ginit":     "(<under From != ''>, <istep>)"
+type walker struct {
+	kind    string
+	items   []string
+	module  string
+	seen    map[string]bool // canonical names of seen-maps (reward)
+	pending string          // seen-map tested by a duplicate guard, insertion not yet seen
+	inLoop  bool
+	guard   bool // the statements being walked run only when From != ""
+	loops   int
+}
+
+func (w *walker) tag() string {
+	if w.guard {
+		return "(true, "
+	}
+	return "(false, "
+}
+
+func (w *walker) unknown(s string) {
+	switch w.kind {
+	case "reward":
+		if w.inLoop {
+			w.items = append(w.items, "C:GUnknown "+coqStr(s))
+		} else {
+			w.items = append(w.items, "L:LUnknown "+coqStr(s))
+		}
+	case "gvalidate":
+		w.items = append(w.items, w.tag()+"GVUnknown "+coqStr(s)+")")
+	case "ginit":
+		w.items = append(w.items, w.tag()+"IUnknown "+coqStr(s)+")")
+	}
+}
+
+func (w *walker) emit(s string) {
+	if w.kind == "reward" {
+		if strings.HasPrefix(s, "L") {
+			w.items = append(w.items, "L:"+s)
+		} else {
+			w.items = append(w.items, "C:"+s)
+		}
+		return
+	}
+	w.items = append(w.items, w.tag()+s+")")
+}
+
+func isNilExpr(e *env, x ast.Expr) bool { return e.canon(x) == "nil" }
+
+// the block rejects: a single `return <non-nil>` (validation functions) or a single panic(..) (InitGenesis)
+func (w *walker) rejects(e *env, b *ast.BlockStmt) bool {
+	if b == nil || len(b.List) != 1 {
+		return false
+	}
+	if w.kind == "ginit" {
+		es, ok := b.List[0].(*ast.ExprStmt)
+		if !ok {
+			return false
+		}
+		c, ok := es.X.(*ast.CallExpr)
+		return ok && src(c.Fun) == "panic"
+	}
+	r, ok := b.List[0].(*ast.ReturnStmt)
+	return ok && len(r.Results) == 1 && !isNilExpr(e, r.Results[0])
+}
+
+func isReturnOK(e *env, st ast.Stmt) bool {
+	r, ok := st.(*ast.ReturnStmt)
+	if !ok {
+		return false
+	}
+	return len(r.Results) == 0 || (len(r.Results) == 1 && isNilExpr(e, r.Results[0]))
+}
+
+func fromCond(c string) (isEmpty, nonEmpty bool) {
+	switch unq(c) {
+	case "len($G.From) == 0", "$G.From == \"\"", "len($G.From) < 1", "\"\" == $G.From":
+		return true, false
+	case "len($G.From) != 0", "$G.From != \"\"", "len($G.From) > 0", "len($G.From) >= 1", "\"\" != $G.From":
+		return false, true
+	}
+	return false, false
+}
+
+// the error value of this canonical call is tested: emit the step it stands for (or inline the helper)
+func (w *walker) failing(e *env, v string) bool {
+	switch w.kind {
+	case "reward":
+		if w.inLoop && v == "sdk.ValidateDenom($C.Denom)" {
+			w.emit("GValidDenom")
+			return true
+		}
+	case "gvalidate":
+		switch v {
+		case "$G.Params.validate()":
+			w.emit("GVParams")
+			return true
+		case "$G.InitReward.Validate()":
+			w.emit("GVInitCoins")
+			return true
+		case "sdk.AccAddressFromBech32($G.From)":
+			w.emit("GVBech32")
+			return true
+		}
+	case "ginit":
+		if v == "sdk.AccAddressFromBech32($G.From)" {
+			w.emit("IParseFrom")
+			return true
+		}
+		const pre = "$K.bankKeeper.SendCoinsFromAccountToModule($ctx, $FROM, "
+		if strings.HasPrefix(v, pre) && strings.HasSuffix(v, ", $G.InitReward)") {
+			m := strings.TrimSuffix(strings.TrimPrefix(v, pre), ", $G.InitReward)")
+			if m == "types.ModuleName" {
+				w.emit("ISendToModule " + coqStr(w.module))
+			} else {
+				w.emit("ISendToModule " + coqStr("?"+m))
+			}
+			return true
+		}
+	}
+	if pc := e.calls[v]; pc != nil {
+		return w.inline(pc.e, pc.c)
+	}
+	return false
+}
+
+// inline walks the body of a helper / keeper method / closure called here
+func (w *walker) inline(e *env, c *ast.CallExpr) bool {
+	if e.depth >= 8 {
+		return false
+	}
+	f, recv := e.callee(c)
+	if f == nil {
+		return false
+	}
+	if ex := w.stmts(e.bind(f, recv, e.canonArgs(c.Args)), f.body.List); ex == unknownFlow {
+		w.unknown("control flow of " + src(c.Fun))
+	}
+	return true
+}
+
+// condition of a rejecting `if` / switch case
+func (w *walker) cond(e *env, c ast.Expr) {
+	switch b := c.(type) {
+	case *ast.ParenExpr:
+		w.cond(e, b.X)
+		return
+	case *ast.BinaryExpr:
+		if b.Op == token.LOR {
+			w.cond(e, b.X)
+			w.cond(e, b.Y)
+			return
+		}
+		if b.Op == token.NEQ && src(b.Y) == "nil" {
+			if w.failing(e, e.canon(b.X)) {
+				return
+			}
+		}
+	}
+	s := unq(e.canon(c))
+	if w.kind == "reward" {
+		if w.inLoop {
+			switch s {
+			case "len($C.Denom) == 0", "$C.Denom == \"\"", "\"\" == $C.Denom", "len($C.Denom) < 1":
+				w.emit("GEmptyDenom")
+				return
+			case "$C.Amount.IsNil()":
+				w.emit("GNilAmount")
+				return
+			case "$C.IsNegative()", "$C.Amount.IsNegative()", "$C.Amount.LT(sdk.ZeroInt())", "$C.Amount.Sign() < 0", "$C.Amount.Sign() == -1":
+				w.emit("GNegative")
+				return
+			}
+			for m := range w.seen {
+				if s == m+"[$C.Denom]" {
+					w.pending = m
+					return
+				}
+			}
+		} else {
+			switch s {
+			case "len($L) == 0", "$L.Empty()", "len($L) < 1":
+				w.emit("LEmpty")
+				return
+			case "!$OK":
+				w.emit("LTypeCoins")
+				return
+			}
+		}
+	}
+	if w.kind == "gvalidate" && s == "!$G.InitReward.IsValid()" {
+		w.emit("GVInitCoins")
+		return
+	}
+	w.unknown("if " + s)
+}
+
+// binds the variables of `if <init>; cond`
+func ifInit(e *env, s *ast.IfStmt) (*env, bool) {
+	if s.Init == nil {
+		return e, true
+	}
+	as, ok := s.Init.(*ast.AssignStmt)
+	if !ok || len(as.Rhs) != 1 {
+		return e, false
+	}
+	e2 := e.fork()
+	switch len(as.Lhs) {
+	case 1:
+		e2.bindVar(src(as.Lhs[0]), as.Rhs[0])
+	case 2:
+		rhs := e.canon(as.Rhs[0])
+		if _, isIdx := as.Rhs[0].(*ast.IndexExpr); isIdx { // _, dup := seen[k]: the presence bit
+			e2.vars[src(as.Lhs[0])] = rhs
+			e2.vars[src(as.Lhs[1])] = rhs
+		} else { // _, err := f(x)
+			e2.vars[src(as.Lhs[0])] = rhs + "#0"
+			e2.bindVar(src(as.Lhs[1]), as.Rhs[0])
+		}
+	default:
+		return e, false
+	}
+	return e2, true
+}
+
+func (w *walker) stmts(e *env, list []ast.Stmt) exit {
+	saved := w.guard
+	defer func() { w.guard = saved }()
+	for i, st := range list {
+		last := i == len(list)-1
+		switch s := st.(type) {
+		case *ast.EmptyStmt:
+		case *ast.DeferStmt:
+			if !isLogCall(e.canon(s.Call)) {
+				w.unknown(src(s))
+			}
+		case *ast.DeclStmt:
+			gd, ok := s.Decl.(*ast.GenDecl)
+			if !ok || gd.Tok != token.VAR {
+				w.unknown(src(s))
+				continue
+			}
+			for _, sp := range gd.Specs {
+				vs := sp.(*ast.ValueSpec)
+				for j, n := range vs.Names {
+					if j < len(vs.Values) {
+						w.define(e, n.Name, vs.Values[j])
+					} else if _, isMap := vs.Type.(*ast.MapType); isMap {
+						w.seen["$SEEN_"+n.Name] = true
+						e.vars[n.Name] = "$SEEN_" + n.Name
+					} else if !strings.HasPrefix(e.vars[n.Name], "mut:") {
+						e.vars[n.Name] = "zero:" + src(vs.Type)
+					}
+				}
+			}
+		case *ast.AssignStmt:
+			w.assignStmt(e, s)
+		case *ast.ExprStmt:
+			c, ok := s.X.(*ast.CallExpr)
+			if !ok {
+				w.unknown(src(s))
+				continue
+			}
+			cs := e.canon(c)
+			switch {
+			case w.kind == "ginit" && (cs == "$K.SetParams($ctx, $G.Params)" || cs == "$K.paramSubspace.SetParamSet($ctx, $G.Params)"):
+				w.emit("ISetParams")
+			case isLogCall(cs):
+			case w.inline(e, c):
+			default:
+				w.unknown(cs)
+			}
+		case *ast.IfStmt:
+			if stop := w.ifStmt(e, s, list[i+1:]); stop != fallsThrough {
+				return stop
+			}
+		case *ast.SwitchStmt:
+			w.switchStmt(e, s)
+		case *ast.TypeSwitchStmt:
+			if ex := w.typeSwitch(e, s, last); ex != fallsThrough {
+				return ex
+			}
+		case *ast.RangeStmt:
+			w.rangeStmt(e, s)
+		case *ast.ForStmt:
+			w.forStmt(e, s)
+		case *ast.ReturnStmt:
+			if !last {
+				w.unknown(src(s))
+				return unknownFlow
+			}
+			if isReturnOK(e, s) {
+				return returnsOK
+			}
+			if len(s.Results) == 1 {
+				// `return f(x)`: the error of a validating call / a helper in tail position
+				if c, ok := s.Results[0].(*ast.CallExpr); ok && w.kind != "ginit" {
+					v := e.canon(c)
+					e.calls[v] = &pcall{e.fork(), c}
+					if w.failing(e, v) {
+						return returnsOK
+					}
+				}
+			}
+			w.unknown(src(s))
+			return unknownFlow
+		case *ast.BlockStmt:
+			if ex := w.stmts(e, s.List); ex != fallsThrough {
+				if !last {
+					w.unknown("return inside a block")
+					return unknownFlow
+				}
+				return ex
+			}
+		default:
+			w.unknown(src(st))
+		}
+	}
+	return fallsThrough
+}
+
+func isLogCall(cs string) bool {
+	return strings.HasPrefix(cs, "$ctx.Logger().") || strings.HasPrefix(cs, "$K.Logger($ctx).") || strings.HasPrefix(cs, "telemetry.")
+}
+
+func (w *walker) define(e *env, name string, rhs ast.Expr) {
+	switch r := rhs.(type) {
+	case *ast.CallExpr:
+		if src(r.Fun) == "make" && len(r.Args) >= 1 {
+			if _, ok := r.Args[0].(*ast.MapType); ok {
+				w.seen["$SEEN_"+name] = true
+				e.vars[name] = "$SEEN_" + name
+				return
+			}
+		}
+	case *ast.CompositeLit:
+		if _, ok := r.Type.(*ast.MapType); ok && len(r.Elts) == 0 {
+			w.seen["$SEEN_"+name] = true
+			e.vars[name] = "$SEEN_" + name
+			return
+		}
+	}
+	e.bindVar(name, rhs)
+}
+
+func (w *walker) assignStmt(e *env, s *ast.AssignStmt) {
+	if len(s.Rhs) != 1 {
+		w.unknown(src(s))
+		return
+	}
+	// seen[$C.Denom] = ...   (the insertion that completes a duplicate guard)
+	if len(s.Lhs) == 1 && s.Tok == token.ASSIGN {
+		if ix, ok := s.Lhs[0].(*ast.IndexExpr); ok {
+			if w.pending != "" && e.canon(ix) == w.pending+"[$C.Denom]" {
+				w.emit("GDuplicate")
+				w.pending = ""
+				return
+			}
+			w.unknown(src(s))
+			return
+		}
+	}
+	switch len(s.Lhs) {
+	case 1:
+		id, ok := s.Lhs[0].(*ast.Ident)
+		if !ok || (s.Tok != token.DEFINE && s.Tok != token.ASSIGN) {
+			w.unknown(src(s))
+			return
+		}
+		if s.Tok == token.ASSIGN && id.Name != "err" && id.Name != "_" {
+			// a local that is re-assigned is never substituted (bind marks it mut:); its assignment is opaque
+			w.unknown(src(s))
+			return
+		}
+		w.define(e, id.Name, s.Rhs[0])
+	case 2:
+		a, b := src(s.Lhs[0]), src(s.Lhs[1])
+		rhs := e.canon(s.Rhs[0])
+		if ta, ok := s.Rhs[0].(*ast.TypeAssertExpr); ok && w.kind == "reward" && src(ta.Type) == "sdk.Coins" && e.canon(ta.X) == "$R" {
+			e.vars[a], e.vars[b] = "$L", "$OK"
+			return
+		}
+		if w.kind == "ginit" && (rhs == "sdk.AccAddressFromBech32($G.From)") {
+			e.vars[a] = "$FROM"
+			e.bindVar(b, s.Rhs[0])
+			return
+		}
+		e.vars[a] = rhs + "#0"
+		e.bindVar(b, s.Rhs[0])
+	default:
+		w.unknown(src(s))
+	}
+}
+
+// ifStmt returns != fallsThrough when the rest of the list has been consumed
+func (w *walker) ifStmt(e *env, s *ast.IfStmt, rest []ast.Stmt) exit {
+	e2, ok := ifInit(e, s)
+	if !ok {
+		w.unknown(src(s))
+		return fallsThrough
+	}
+	if w.kind == "gvalidate" || w.kind == "ginit" {
+		isEmpty, nonEmpty := fromCond(e2.canon(s.Cond))
+		if nonEmpty && s.Else == nil && !w.guard {
+			w.guard = true
+			ex := w.stmts(e2.fork(), s.Body.List)
+			w.guard = false
+			switch {
+			case ex == unknownFlow:
+				w.unknown("control flow under From != ''")
+			case ex == returnsOK:
+				// what follows runs only when From is empty: it must be nothing but `return nil`
+				for _, r := range rest {
+					if !isReturnOK(e, r) {
+						w.unknown("statement after a returning From-guarded block: " + src(r))
+					}
+				}
+				return returnsOK
+			}
+			return fallsThrough
+		}
+		if isEmpty && s.Else == nil && len(s.Body.List) == 1 && isReturnOK(e2, s.Body.List[0]) && !w.guard {
+			// early return: the rest of this body runs only when From is not empty
+			w.guard = true
+			ex := w.stmts(e, rest)
+			w.guard = false
+			if ex == unknownFlow {
+				return unknownFlow
+			}
+			return returnsOK
+		}
+	}
+	if !w.rejects(e2, s.Body) {
+		w.unknown(src(s))
+		return fallsThrough
+	}
+	w.cond(e2, s.Cond)
+	switch el := s.Else.(type) {
+	case nil:
+	case *ast.IfStmt: // if c { reject } else if d { reject }
+		return w.ifStmt(e2, el, rest)
+	case *ast.BlockStmt:
+		if ex := w.stmts(e2, el.List); ex != fallsThrough {
+			if len(rest) != 0 {
+				w.unknown("return in an else branch")
+				return unknownFlow
+			}
+			return ex
+		}
+	}
+	return fallsThrough
+}
+
+func (w *walker) switchStmt(e *env, s *ast.SwitchStmt) {
+	if s.Tag != nil || s.Init != nil {
+		w.unknown(src(s))
+		return
+	}
+	for _, cc := range s.Body.List {
+		c := cc.(*ast.CaseClause)
+		if c.List == nil { // default
+			if len(c.Body) != 0 {
+				w.unknown("switch default: " + src(c))
+			}
+			continue
+		}
+		if !w.rejects(e, &ast.BlockStmt{List: c.Body}) {
+			w.unknown("switch case: " + src(c))
+			continue
+		}
+		for _, x := range c.List {
+			w.cond(e, x)
+		}
+	}
+}
+
+// switch v := r.(type) { case sdk.Coins: ...; default: reject }
+func (w *walker) typeSwitch(e *env, s *ast.TypeSwitchStmt, last bool) exit {
+	if w.kind != "reward" || w.inLoop {
+		w.unknown(src(s))
+		return fallsThrough
+	}
+	bind := ""
+	var subj ast.Expr
+	switch a := s.Assign.(type) {
+	case *ast.AssignStmt:
+		if len(a.Lhs) == 1 && len(a.Rhs) == 1 {
+			bind = src(a.Lhs[0])
+			if ta, ok := a.Rhs[0].(*ast.TypeAssertExpr); ok {
+				subj = ta.X
+			}
+		}
+	case *ast.ExprStmt:
+		if ta, ok := a.X.(*ast.TypeAssertExpr); ok {
+			subj = ta.X
+		}
+	}
+	if subj == nil || e.canon(subj) != "$R" {
+		w.unknown(src(s))
+		return fallsThrough
+	}
+	var coins *ast.CaseClause
+	ok := true
+	hasDefault := false
+	for _, cc := range s.Body.List {
+		c := cc.(*ast.CaseClause)
+		if len(c.List) == 1 && src(c.List[0]) == "sdk.Coins" {
+			coins = c
+			continue
+		}
+		if c.List == nil {
+			hasDefault = true
+		}
+		if !w.rejects(e, &ast.BlockStmt{List: c.Body}) {
+			ok = false
+		}
+	}
+	if coins == nil || !ok || !hasDefault {
+		w.unknown(src(s))
+		return fallsThrough
+	}
+	w.emit("LTypeCoins")
+	e2 := e.fork()
+	if bind != "" {
+		e2.vars[bind] = "$L"
+	}
+	ex := w.stmts(e2, coins.Body)
+	if ex == fallsThrough && !last {
+		// the statements after the switch do not know the typed list: only a bound variable carries it
+		w.unknown("statements after the type switch")
+	}
+	return ex
+}
+
+func (w *walker) coinLoop(e *env, body []ast.Stmt) {
+	if w.loops > 0 {
+		w.unknown("second loop over the reward list")
+		return
+	}
+	w.loops++
+	w.inLoop = true
+	if ex := w.stmts(e, body); ex != fallsThrough {
+		w.unknown("return inside the loop")
+	}
+	if w.pending != "" {
+		w.unknown("duplicate test without insertion into " + w.pending)
+		w.pending = ""
+	}
+	w.inLoop = false
+}
+
+func (w *walker) rangeStmt(e *env, s *ast.RangeStmt) {
+	x := e.canon(s.X)
+	if w.kind == "reward" && !w.inLoop && x == "$L" {
+		e2 := e.fork()
+		if s.Key != nil && src(s.Key) != "_" {
+			e2.vars[src(s.Key)] = "$I"
+		}
+		if s.Value != nil && src(s.Value) != "_" {
+			e2.vars[src(s.Value)] = "$C"
+		}
+		w.coinLoop(e2, s.Body.List)
+		return
+	}
+	// scan of the earlier entries: for _, p := range $L[:$I] { if p.Denom == $C.Denom { reject } }
+	if w.kind == "reward" && w.inLoop && (x == "$L[:$I]" || x == "$L[0:$I]") && len(s.Body.List) == 1 {
+		val, key := "", ""
+		if s.Value != nil {
+			val = src(s.Value)
+		}
+		if s.Key != nil && src(s.Key) != "_" {
+			key = src(s.Key)
+		}
+		if w.prefixScan(e, s.Body.List[0], val, key) {
+			return
+		}
+	}
+	w.unknown("loop over " + x)
+}
+
+func (w *walker) prefixScan(e *env, st ast.Stmt, valueVar, indexVar string) bool {
+	is, ok := st.(*ast.IfStmt)
+	if !ok || is.Init != nil || is.Else != nil || !w.rejects(e, is.Body) {
+		return false
+	}
+	e2 := e.fork()
+	if valueVar != "" && valueVar != "_" {
+		e2.vars[valueVar] = "$P"
+	}
+	if indexVar != "" {
+		e2.vars[indexVar] = "$J"
+	}
+	c := strings.ReplaceAll(unq(e2.canon(is.Cond)), "$L[$J]", "$P")
+	if c == "$P.Denom == $C.Denom" || c == "$C.Denom == $P.Denom" {
+		w.emit("GDuplicate")
+		return true
+	}
+	return false
+}
+
+func (w *walker) forStmt(e *env, s *ast.ForStmt) {
+	init, okI := s.Init.(*ast.AssignStmt)
+	post, okP := s.Post.(*ast.IncDecStmt)
+	if w.kind != "reward" || !okI || !okP || len(init.Lhs) != 1 || len(init.Rhs) != 1 || src(init.Rhs[0]) != "0" ||
+		post.Tok != token.INC || src(post.X) != src(init.Lhs[0]) || s.Cond == nil {
+		w.unknown("for loop")
+		return
+	}
+	iv := src(init.Lhs[0])
+	e2 := e.fork()
+	delete(e2.vars, iv)
+	cond := unq(e2.canon(s.Cond))
+	switch {
+	case !w.inLoop && cond == iv+" < len($L)":
+		e2.vars[iv] = "$I"
+		w.coinLoop(e2, s.Body.List)
+	case w.inLoop && cond == iv+" < $I" && len(s.Body.List) == 1 && w.prefixScan(e2, s.Body.List[0], "", iv):
+	default:
+		w.unknown("for loop " + cond)
+	}
+}
+
+// ---------------------------------------------------------------- entry points of the walker
+
+func topEnv(f *fn, funcs, kfuncs, methods map[string]*fn, recvT string, recvCanon string, bind map[int]string) *env {
+	e := newEnv(funcs, kfuncs, methods, recvT)
+	args := make([]string, len(f.params))
+	for i := range args {
+		args[i] = f.params[i]
+		if s, ok := bind[i]; ok {
+			args[i] = s
+		}
+	}
+	c := e.bind(f, recvCanon, args)
+	c.depth = 0
+	return c
+}
+
+func rewardGuards(typesFiles []*ast.File, validator string) (lg, cg []string) {
+	funcs, methods := tables(typesFiles)
+	f := funcs[validator]
+	if f == nil || len(f.params) != 1 {
+		return []string{"LUnknown " + coqStr(validator+" not found")}, nil
+	}
+	w := &walker{kind: "reward", seen: map[string]bool{}}
+	e := topEnv(f, funcs, nil, methods, "", "", map[int]string{0: "$R"})
+	if ex := w.stmts(e, f.body.List); ex == unknownFlow {
+		w.unknown("control flow of " + validator)
+	}
+	if w.loops == 0 {
+		w.unknown("no loop over the reward list")
+	}
+	for _, it := range w.items {
+		if strings.HasPrefix(it, "L:") {
+			lg = append(lg, it[2:])
+		} else {
+			cg = append(cg, it[2:])
+		}
+	}
+	return
+}
+
+func validateGenesisSteps(typesFiles []*ast.File) []string {
+	funcs, methods := tables(typesFiles)
+	f := funcs["ValidateGenesis"]
+	if f == nil || len(f.params) != 1 {
+		return []string{"(false, GVUnknown " + coqStr("ValidateGenesis not found") + ")"}
+	}
+	w := &walker{kind: "gvalidate", seen: map[string]bool{}}
+	e := topEnv(f, funcs, nil, methods, "", "", map[int]string{0: "$G"})
+	if ex := w.stmts(e, f.body.List); ex == unknownFlow {
+		w.unknown("control flow of ValidateGenesis")
+	}
+	return w.items
+}
+
+func initGenesisSteps(keeperFiles []*ast.File, module string) []string {
+	funcs, methods := tables(keeperFiles)
+	f := methods["Keeper.InitGenesis"]
+	if f == nil || len(f.params) != 2 {
+		return []string{"(false, IUnknown " + coqStr("InitGenesis not found") + ")"}
+	}
+	w := &walker{kind: "ginit", seen: map[string]bool{}, module: module}
+	e := topEnv(f, funcs, funcs, methods, "Keeper", "$K", map[int]string{0: "$ctx", 1: "$G"})
+	if ex := w.stmts(e, f.body.List); ex == unknownFlow {
+		w.unknown("control flow of InitGenesis")
+	}
+	return w.items
+}
+
+// ExportGenesis: locals substituted, the returned expression must be types.NewGenesisState($K.GetParams($ctx)) and
+// NewGenesisState(p) must be {Params: p, From: "", InitReward: empty}
+func exportShape(keeperFiles, typesFiles []*ast.File) string {
+	funcs, methods := tables(keeperFiles)
+	f := methods["Keeper.ExportGenesis"]
+	if f == nil || len(f.params) != 1 {
+		return "EUnknown"
+	}
+	e := topEnv(f, funcs, funcs, methods, "Keeper", "$K", map[int]string{0: "$ctx"})
+	ret := ""
+	for i, st := range f.body.List {
+		switch s := st.(type) {
+		case *ast.AssignStmt:
+			if len(s.Lhs) != 1 || len(s.Rhs) != 1 || s.Tok != token.DEFINE {
+				return "EUnknown"
+			}
+			e.bindVar(src(s.Lhs[0]), s.Rhs[0])
+		case *ast.DeclStmt:
+			return "EUnknown"
+		case *ast.ReturnStmt:
+			if i != len(f.body.List)-1 || len(s.Results) != 1 {
+				return "EUnknown"
+			}
+			ret = e.canon(s.Results[0])
+		default:
+			return "EUnknown"
+		}
+	}
+	if ret != "types.NewGenesisState($K.GetParams($ctx))" {
+		return "EUnknown"
+	}
+	tfuncs, _ := tables(typesFiles)
+	ng := tfuncs["NewGenesisState"]
+	if ng == nil || len(ng.params) != 1 {
+		return "EUnknown"
+	}
+	lit := returnedLiteral(ng.body, "GenesisState")
+	if lit == nil || src(lit["Params"]) != ng.params[0] {
+		return "EUnknown"
+	}
+	if fr, has := lit["From"]; has && src(fr) != `""` {
+		return "EUnknown"
+	}
+	if ir, has := lit["InitReward"]; has && src(ir) != "nil" {
+		ec := &evalCtx{}
+		if cs, ok := ec.evalCoins(ir); !(ok && len(cs) == 0) {
+			return "EUnknown"
+		}
+	}
+	return "EParamsOnly"
+}
+
+// ---------------------------------------------------------------- bank calls reachable from BeginBlocker
+
+type collector struct {
+	calls []string // canonical bank calls, in traversal order
+	depth int
+}
+
+func (c *collector) exprs(e *env, xs ...ast.Expr) {
+	for _, x := range xs {
+		if x == nil {
+			continue
+		}
+		ast.Inspect(x, func(n ast.Node) bool {
+			if _, isLit := n.(*ast.FuncLit); isLit {
+				return false
+			}
+			call, ok := n.(*ast.CallExpr)
+			if !ok {
+				return true
+			}
+			if f, recv := e.callee(call); f != nil && e.depth < 8 {
+				for _, a := range call.Args {
+					c.exprs(e, a)
+				}
+				c.stmts(e.bind(f, recv, e.canonArgs(call.Args)), f.body.List)
+				return false
+			}
+			cs := e.canon(call)
+			if strings.HasPrefix(cs, "$K.bankKeeper.") {
+				c.calls = append(c.calls, cs)
+			}
+			return true
+		})
+	}
+}
+
+func (c *collector) stmts(e *env, list []ast.Stmt) {
+	for _, st := range list {
+		switch s := st.(type) {
+		case *ast.AssignStmt:
+			c.exprs(e, s.Rhs...)
+			if len(s.Rhs) == 1 {
+				for i, l := range s.Lhs {
+					if id, ok := l.(*ast.Ident); ok && (s.Tok == token.DEFINE || id.Name == "err") {
+						if i == 0 && len(s.Lhs) == 1 {
+							e.bindVar(id.Name, s.Rhs[0])
+						} else if !strings.HasPrefix(e.vars[id.Name], "mut:") {
+							e.vars[id.Name] = e.canon(s.Rhs[0]) + "#" + strconv.Itoa(i)
+						}
+					}
+				}
+			}
+		case *ast.DeclStmt:
+			if gd, ok := s.Decl.(*ast.GenDecl); ok {
+				for _, sp := range gd.Specs {
+					if vs, ok := sp.(*ast.ValueSpec); ok {
+						c.exprs(e, vs.Values...)
+						for j, n := range vs.Names {
+							if j < len(vs.Values) {
+								e.bindVar(n.Name, vs.Values[j])
+							}
+						}
+					}
+				}
+			}
+		case *ast.ExprStmt:
+			c.exprs(e, s.X)
+		case *ast.ReturnStmt:
+			c.exprs(e, s.Results...)
+		case *ast.DeferStmt:
+			c.exprs(e, s.Call)
+		case *ast.GoStmt:
+			c.exprs(e, s.Call)
+		case *ast.IfStmt:
+			e2 := e.fork()
+			if s.Init != nil {
+				c.stmts(e2, []ast.Stmt{s.Init})
+			}
+			c.exprs(e2, s.Cond)
+			c.stmts(e2.fork(), s.Body.List)
+			if s.Else != nil {
+				c.stmts(e2.fork(), []ast.Stmt{s.Else})
+			}
+		case *ast.BlockStmt:
+			c.stmts(e.fork(), s.List)
+		case *ast.ForStmt:
+			e2 := e.fork()
+			if s.Init != nil {
+				c.stmts(e2, []ast.Stmt{s.Init})
+			}
+			c.exprs(e2, s.Cond)
+			c.stmts(e2, s.Body.List)
+		case *ast.RangeStmt:
+			e2 := e.fork()
+			c.exprs(e2, s.X)
+			if s.Value != nil && src(s.Value) != "_" {
+				e2.vars[src(s.Value)] = "$E"
+			}
+			if s.Key != nil && src(s.Key) != "_" {
+				e2.vars[src(s.Key)] = "$EI"
+			}
+			c.stmts(e2, s.Body.List)
+		case *ast.SwitchStmt:
+			e2 := e.fork()
+			if s.Init != nil {
+				c.stmts(e2, []ast.Stmt{s.Init})
+			}
+			c.exprs(e2, s.Tag)
+			for _, cc := range s.Body.List {
+				cl := cc.(*ast.CaseClause)
+				c.exprs(e2, cl.List...)
+				c.stmts(e2.fork(), cl.Body)
+			}
+		case *ast.TypeSwitchStmt:
+			for _, cc := range s.Body.List {
+				c.stmts(e.fork(), cc.(*ast.CaseClause).Body)
+			}
+		}
+	}
+}
+
+// splits "f(a, b(c, d), e)" arguments at top level
+func splitArgs(call string) (fun string, args []string) {
+	i := strings.Index(call, "(")
+	if i < 0 || !strings.HasSuffix(call, ")") {
+		return call, nil
+	}
+	fun = call[:i]
+	body := call[i+1 : len(call)-1]
+	depth, start := 0, 0
+	for j, ch := range body {
+		switch ch {
+		case '(', '[', '{':
+			depth++
+		case ')', ']', '}':
+			depth--
+		case ',':
+			if depth == 0 {
+				args = append(args, strings.TrimSpace(body[start:j]))
+				start = j + 1
+			}
+		}
+	}
+	if strings.TrimSpace(body[start:]) != "" {
+		args = append(args, strings.TrimSpace(body[start:]))
+	}
+	return
+}
+
+type wiring struct {
+	sender, recipField, remaining string
+	bankMethods                   []string
+	feeParamIdx                   int
+}
+
+func beginBlockWiring(moduleFiles, keeperFiles []*ast.File, moduleName string) wiring {
+	w := wiring{sender: "?", recipField: "?", remaining: "?", feeParamIdx: -1}
+	mfuncs, _ := tables(moduleFiles)
+	kfuncs, kmethods := tables(keeperFiles)
+	bb := mfuncs["BeginBlocker"]
+	if bb == nil {
+		return w
+	}
+	bind := map[int]string{}
+	for i, t := range bb.ptypes {
+		if t == "keeper.Keeper" || t == "*keeper.Keeper" {
+			bind[i] = "$K"
+		}
+	}
+	e := topEnv(bb, mfuncs, kfuncs, kmethods, "Keeper", "", bind)
+	col := &collector{}
+	col.stmts(e, bb.body.List)
+	seenM := map[string]bool{}
+	senders, recips, reads := map[string]bool{}, map[string]bool{}, map[string]bool{}
+	for _, cs := range col.calls {
+		fun, args := splitArgs(cs)
+		m := strings.TrimPrefix(fun, "$K.bankKeeper.")
+		if !seenM[m] {
+			seenM[m] = true
+			w.bankMethods = append(w.bankMethods, m)
+		}
+		switch {
+		case m == "SendCoinsFromModuleToModule" && len(args) == 4:
+			senders[args[1]] = true
+			recips[args[2]] = true
+		case m == "GetBalance" && len(args) == 3, m == "GetAllBalances" && len(args) == 2, m == "SpendableCoins" && len(args) == 2:
+			reads[args[1]] = true
+		case strings.HasPrefix(m, "Get") || strings.HasPrefix(m, "Has") || strings.HasPrefix(m, "Iterate"):
+		default: // any other way of moving coins
+			senders["?"+m] = true
+			recips["?"+m] = true
+		}
+	}
+	one := func(m map[string]bool) string {
+		if len(m) != 1 {
+			var ks []string
+			for k := range m {
+				ks = append(ks, k)
+			}
+			sort.Strings(ks)
+			return "?" + strings.Join(ks, "|")
+		}
+		for k := range m {
+			return k
+		}
+		return "?"
+	}
+	if s := one(senders); s == "types.ModuleName" {
+		w.sender = moduleName
+	} else {
+		w.sender = "?" + strings.TrimPrefix(s, "?")
+	}
+	if r := one(recips); strings.HasPrefix(r, "$K.") && !strings.Contains(r[3:], ".") && !strings.Contains(r, "(") {
+		w.recipField = r[3:]
+	} else {
+		w.recipField = "?" + strings.TrimPrefix(r, "?")
+	}
+	if r := one(reads); r == "$K.accountKeeper.GetModuleAddress(types.ModuleName)" {
+		w.remaining = moduleName
+	} else {
+		w.remaining = "?" + strings.TrimPrefix(r, "?")
+	}
+	// which NewKeeper parameter becomes the recipient field
+	if nk := kfuncs["NewKeeper"]; nk != nil {
+		ast.Inspect(nk.body, func(n ast.Node) bool {
+			var val ast.Expr
+			switch x := n.(type) {
+			case *ast.KeyValueExpr:
+				if src(x.Key) == w.recipField {
+					val = x.Value
+				}
+			case *ast.AssignStmt:
+				if len(x.Lhs) == 1 && len(x.Rhs) == 1 && strings.HasSuffix(src(x.Lhs[0]), "."+w.recipField) {
+					val = x.Rhs[0]
+				}
+			}
+			if val != nil {
+				for i, p := range nk.params {
+					if p == src(val) {
+						w.feeParamIdx = i
+					}
+				}
+			}
+			return true
+		})
+	}
+	return w
+}
+
+// ---------------------------------------------------------------- reused helpers
+
+func funcDecl(f *ast.File, recv, name string) *ast.FuncDecl {
+	for _, d := range f.Decls {
+		fd, ok := d.(*ast.FuncDecl)
+		if !ok || fd.Name.Name != name {
+			continue
+		}
+		if recv == "" {
+			if fd.Recv == nil {
+				return fd
+			}
+			continue
+		}
+		if fd.Recv == nil || len(fd.Recv.List) != 1 {
+			continue
+		}
+		t := fd.Recv.List[0].Type
+		if s, ok := t.(*ast.StarExpr); ok {
+			t = s.X
+		}
+		if id, ok := t.(*ast.Ident); ok && id.Name == recv {
+			return fd
+		}
+	}
+	return nil
+}
+
 func isNilReturn(s ast.Stmt) bool {
 	r, ok := s.(*ast.ReturnStmt)
 	return ok && len(r.Results) == 1 && src(r.Results[0]) == "nil"
@@ -169,146 +1496,14 @@ func rejects(b *ast.BlockStmt) bool {
 	return ok && len(r.Results) == 1 && src(r.Results[0]) != "nil"
 }
 
-func panics(b *ast.BlockStmt) bool {
-	if b == nil || len(b.List) != 1 {
-		return false
-	}
-	e, ok := b.List[0].(*ast.ExprStmt)
-	if !ok {
-		return false
-	}
-	c, ok := e.X.(*ast.CallExpr)
-	return ok && src(c.Fun) == "panic"
-}
-
-// ---------------------------------------------------------------- validatePerBlockReward
-
-func rewardGuards(f *ast.File) (lg []string, cg []string) {
-	fd := funcDecl(f, "", "validatePerBlockReward")
-	if fd == nil || fd.Body == nil || fd.Type.Params == nil || len(fd.Type.Params.List) != 1 || len(fd.Type.Params.List[0].Names) != 1 {
-		return []string{"LUnknown " + coqStr("validatePerBlockReward not found")}, nil
-	}
-	param := fd.Type.Params.List[0].Names[0].Name
-	listVar, okVar := "", ""
-	seenVars := map[string]bool{}
-	sawLoop := false
-	for i, st := range fd.Body.List {
-		last := i == len(fd.Body.List)-1
-		switch s := st.(type) {
-		case *ast.AssignStmt:
-			// reward, ok := r.(sdk.Coins)
-			if len(s.Lhs) == 2 && len(s.Rhs) == 1 {
-				if ta, ok := s.Rhs[0].(*ast.TypeAssertExpr); ok && src(ta.X) == param && src(ta.Type) == "sdk.Coins" {
-					listVar, okVar = src(s.Lhs[0]), src(s.Lhs[1])
-					continue
-				}
-			}
-			// seen := make(map[string]...)
-			if len(s.Lhs) == 1 && len(s.Rhs) == 1 {
-				if c, ok := s.Rhs[0].(*ast.CallExpr); ok && src(c.Fun) == "make" && len(c.Args) >= 1 {
-					if _, ok := c.Args[0].(*ast.MapType); ok {
-						seenVars[src(s.Lhs[0])] = true
-						continue
-					}
-				}
-				if cl, ok := s.Rhs[0].(*ast.CompositeLit); ok {
-					if _, ok := cl.Type.(*ast.MapType); ok && len(cl.Elts) == 0 {
-						seenVars[src(s.Lhs[0])] = true
-						continue
-					}
-				}
-			}
-			lg = append(lg, "LUnknown "+coqStr(src(s)))
-		case *ast.IfStmt:
-			c := src(s.Cond)
-			switch {
-			case s.Init == nil && s.Else == nil && okVar != "" && c == "!"+okVar && rejects(s.Body):
-				lg = append(lg, "LTypeCoins")
-			case s.Init == nil && s.Else == nil && listVar != "" && (c == "len("+listVar+") == 0" || c == "len("+listVar+") < 1" || c == listVar+".Empty()") && rejects(s.Body):
-				lg = append(lg, "LEmpty")
-			default:
-				lg = append(lg, "LUnknown "+coqStr(src(s)))
-			}
-		case *ast.RangeStmt:
-			if sawLoop || listVar == "" || src(s.X) != listVar || s.Value == nil {
-				lg = append(lg, "LUnknown "+coqStr("loop: "+src(s.X)))
-				continue
-			}
-			sawLoop = true
-			cg = coinGuards(s.Body, src(s.Value), seenVars)
-		case *ast.ReturnStmt:
-			if !(last && isNilReturn(s)) {
-				lg = append(lg, "LUnknown "+coqStr(src(s)))
-			}
-		default:
-			lg = append(lg, "LUnknown "+coqStr(src(st)))
-		}
-	}
-	if listVar == "" {
-		lg = append(lg, "LUnknown "+coqStr("no sdk.Coins type assertion"))
-	}
-	return
-}
-
-func coinGuards(body *ast.BlockStmt, rr string, seenVars map[string]bool) (cg []string) {
-	pendingDup := "" // map variable tested by a duplicate guard whose insertion has not been seen yet
-	for _, st := range body.List {
-		switch s := st.(type) {
-		case *ast.IfStmt:
-			if s.Else != nil || !rejects(s.Body) {
-				cg = append(cg, "GUnknown "+coqStr(src(s)))
-				continue
-			}
-			c := src(s.Cond)
-			init := src(s.Init)
-			switch {
-			case s.Init == nil && (c == "len("+rr+".Denom) == 0" || c == rr+".Denom == \"\""):
-				cg = append(cg, "GEmptyDenom")
-			case c == "err != nil" && init == "err := sdk.ValidateDenom("+rr+".Denom)":
-				cg = append(cg, "GValidDenom")
-			case s.Init == nil && c == "sdk.ValidateDenom("+rr+".Denom) != nil":
-				cg = append(cg, "GValidDenom")
-			case s.Init == nil && c == rr+".Amount.IsNil()":
-				cg = append(cg, "GNilAmount")
-			case s.Init == nil && (c == rr+".IsNegative()" || c == rr+".Amount.IsNegative()"):
-				cg = append(cg, "GNegative")
-			default:
-				// if _, dup := seen[rr.Denom]; dup { return … }   |   if seen[rr.Denom] { return … }
-				matched := false
-				for v := range seenVars {
-					if (strings.HasSuffix(init, ":= "+v+"["+rr+".Denom]") && strings.HasPrefix(init, "_, "+c+" ")) ||
-						(s.Init == nil && c == v+"["+rr+".Denom]") {
-						pendingDup = v
-						matched = true
-					}
-				}
-				if !matched {
-					cg = append(cg, "GUnknown "+coqStr(src(s)))
-				}
-			}
-		case *ast.AssignStmt:
-			// seen[rr.Denom] = struct{}{} | true
-			if pendingDup != "" && len(s.Lhs) == 1 && src(s.Lhs[0]) == pendingDup+"["+rr+".Denom]" {
-				cg = append(cg, "GDuplicate")
-				pendingDup = ""
-				continue
-			}
-			cg = append(cg, "GUnknown "+coqStr(src(s)))
-		default:
-			cg = append(cg, "GUnknown "+coqStr(src(st)))
-		}
-	}
-	if pendingDup != "" { // tested but never inserted: the guard never fires
-		cg = append(cg, "GUnknown "+coqStr("duplicate test without insertion into "+pendingDup))
-	}
-	return
-}
-
 // ---------------------------------------------------------------- ParamSetPairs, Params.validate, DefaultParams
 
 func fieldTypes(repo string) map[string]string {
 	f := parse(repo, "x/rvesting/types/genesis.pb.go")
 	m := map[string]string{}
+	if f == nil {
+		return m
+	}
 	for _, d := range f.Decls {
 		gd, ok := d.(*ast.GenDecl)
 		if !ok || gd.Tok != token.TYPE {
@@ -340,7 +1535,12 @@ func coqType(goType string) string {
 	return "TOtherType " + coqStr(goType)
 }
 
+var rewardValidator = "validatePerBlockReward"
+
 func paramPairs(f *ast.File, consts map[string]string, ftypes map[string]string) []string {
+	if f == nil {
+		return nil
+	}
 	fd := funcDecl(f, "Params", "ParamSetPairs")
 	var out []string
 	if fd == nil || fd.Body == nil {
@@ -365,8 +1565,9 @@ func paramPairs(f *ast.File, consts map[string]string, ftypes map[string]string)
 		val := ""
 		switch v := c.Args[2].(type) {
 		case *ast.Ident:
-			if v.Name == "validatePerBlockReward" {
+			if coqType(ftypes[field]) == "TCoins" {
 				val = "VRewards"
+				rewardValidator = v.Name
 			} else {
 				val = "VOther " + coqStr(v.Name)
 			}
@@ -387,27 +1588,36 @@ func paramPairs(f *ast.File, consts map[string]string, ftypes map[string]string)
 }
 
 func validateShape(f *ast.File) string {
+	if f == nil {
+		return "PVUnknown"
+	}
 	fd := funcDecl(f, "Params", "validate")
 	if fd == nil || fd.Body == nil || len(fd.Recv.List[0].Names) != 1 {
 		return "PVUnknown"
 	}
 	m := fd.Recv.List[0].Names[0].Name
-	call := "validatePerBlockReward(" + m + ".PerBlockReward)"
-	l := fd.Body.List
-	if len(l) == 1 {
-		if r, ok := l[0].(*ast.ReturnStmt); ok && len(r.Results) == 1 && src(r.Results[0]) == call {
-			return "PVAlways"
-		}
+	call := rewardValidator + "(" + m + ".PerBlockReward)"
+	isCall := func(s ast.Stmt) bool { // return v(m.PerBlockReward)
+		r, ok := s.(*ast.ReturnStmt)
+		return ok && len(r.Results) == 1 && src(r.Results[0]) == call
 	}
-	if len(l) == 2 && isNilReturn(l[1]) {
-		if s, ok := l[0].(*ast.IfStmt); ok && s.Init == nil && s.Else == nil && src(s.Cond) == m+".EnableVesting" && len(s.Body.List) == 1 {
-			if r, ok := s.Body.List[0].(*ast.ReturnStmt); ok && len(r.Results) == 1 && src(r.Results[0]) == call {
-				return "PVIfEnabled"
-			}
+	errIf := func(s ast.Stmt) bool { // if err := v(..); err != nil { return err }
+		is, ok := s.(*ast.IfStmt)
+		return ok && is.Else == nil && src(is.Init) == "err := "+call && src(is.Cond) == "err != nil" && len(is.Body.List) == 1 && !isNilReturn(is.Body.List[0])
+	}
+	l := fd.Body.List
+	switch {
+	case len(l) == 1 && isCall(l[0]):
+		return "PVAlways"
+	case len(l) == 2 && errIf(l[0]) && isNilReturn(l[1]):
+		return "PVAlways"
+	case len(l) == 2 && isNilReturn(l[1]):
+		if s, ok := l[0].(*ast.IfStmt); ok && s.Init == nil && s.Else == nil && src(s.Cond) == m+".EnableVesting" && len(s.Body.List) == 1 && isCall(s.Body.List[0]) {
+			return "PVIfEnabled"
 		}
-		// if err := validatePerBlockReward(..); err != nil { return err }; return nil
-		if s, ok := l[0].(*ast.IfStmt); ok && s.Else == nil && src(s.Init) == "err := "+call && src(s.Cond) == "err != nil" && rejects(s.Body) {
-			return "PVAlways"
+	case len(l) == 2 && isCall(l[1]):
+		if s, ok := l[0].(*ast.IfStmt); ok && s.Init == nil && s.Else == nil && src(s.Cond) == "!"+m+".EnableVesting" && len(s.Body.List) == 1 && isNilReturn(s.Body.List[0]) {
+			return "PVIfEnabled"
 		}
 	}
 	return "PVUnknown"
@@ -547,12 +1757,12 @@ func coqCoins(cs []coin) string {
 	return "[" + strings.Join(items, "; ") + "]"
 }
 
-// fields of the composite literal a function returns: name -> expression
-func returnedLiteral(fd *ast.FuncDecl, typ string) map[string]ast.Expr {
-	if fd == nil || fd.Body == nil || len(fd.Body.List) != 1 {
+// fields of the composite literal a body returns: name -> expression
+func returnedLiteral(body *ast.BlockStmt, typ string) map[string]ast.Expr {
+	if body == nil || len(body.List) != 1 {
 		return nil
 	}
-	r, ok := fd.Body.List[0].(*ast.ReturnStmt)
+	r, ok := body.List[0].(*ast.ReturnStmt)
 	if !ok || len(r.Results) != 1 {
 		return nil
 	}
@@ -575,200 +1785,11 @@ func returnedLiteral(fd *ast.FuncDecl, typ string) map[string]ast.Expr {
 	return m
 }
 
-// ---------------------------------------------------------------- genesis
-
-func validateGenesisSteps(f *ast.File) []string {
-	fd := funcDecl(f, "", "ValidateGenesis")
-	if fd == nil || fd.Body == nil || len(fd.Type.Params.List) != 1 || len(fd.Type.Params.List[0].Names) != 1 {
-		return []string{"(false, GVUnknown " + coqStr("ValidateGenesis not found") + ")"}
-	}
-	d := fd.Type.Params.List[0].Names[0].Name
-	var out []string
-	var walk func(l []ast.Stmt, underFrom bool, top bool)
-	walk = func(l []ast.Stmt, underFrom bool, top bool) {
-		for i, st := range l {
-			last := i == len(l)-1
-			tag := "false"
-			if underFrom {
-				tag = "true"
-			}
-			switch s := st.(type) {
-			case *ast.IfStmt:
-				init, c := src(s.Init), src(s.Cond)
-				switch {
-				case s.Else == nil && init == "err := "+d+".Params.validate()" && c == "err != nil" && rejects(s.Body):
-					out = append(out, "("+tag+", GVParams)")
-				case s.Else == nil && init == "_, err := sdk.AccAddressFromBech32("+d+".From)" && c == "err != nil" && rejects(s.Body):
-					out = append(out, "("+tag+", GVBech32)")
-				case s.Else == nil && init == "err := "+d+".InitReward.Validate()" && c == "err != nil" && rejects(s.Body):
-					out = append(out, "("+tag+", GVInitCoins)")
-				case s.Else == nil && s.Init == nil && !underFrom && (c == "len("+d+".From) != 0" || c == "len("+d+".From) > 0" || c == d+".From != \"\""):
-					walk(s.Body.List, true, false)
-				default:
-					out = append(out, "("+tag+", GVUnknown "+coqStr(src(s))+")")
-				}
-			case *ast.ReturnStmt:
-				if len(s.Results) == 1 {
-					r := src(s.Results[0])
-					switch {
-					case r == "nil" && last:
-					case r == d+".InitReward.Validate()" && last:
-						out = append(out, "("+tag+", GVInitCoins)")
-					case r == d+".Params.validate()" && last:
-						out = append(out, "("+tag+", GVParams)")
-					default:
-						out = append(out, "("+tag+", GVUnknown "+coqStr(src(s))+")")
-					}
-				} else {
-					out = append(out, "("+tag+", GVUnknown "+coqStr(src(s))+")")
-				}
-			default:
-				out = append(out, "("+tag+", GVUnknown "+coqStr(src(st))+")")
-			}
-		}
-	}
-	walk(fd.Body.List, false, true)
-	return out
-}
-
-func initGenesisSteps(f *ast.File, moduleName string) []string {
-	fd := funcDecl(f, "Keeper", "InitGenesis")
-	if fd == nil || fd.Body == nil || len(fd.Type.Params.List) != 2 || len(fd.Type.Params.List[1].Names) != 1 {
-		return []string{"IUnknown " + coqStr("InitGenesis not found")}
-	}
-	g := fd.Type.Params.List[1].Names[0].Name
-	k := fd.Recv.List[0].Names[0].Name
-	fromVar := ""
-	var out []string
-	for _, st := range fd.Body.List {
-		switch s := st.(type) {
-		case *ast.ExprStmt:
-			x := src(s.X)
-			if x == k+".SetParams(ctx, "+g+".GetParams())" || x == k+".SetParams(ctx, "+g+".Params)" {
-				out = append(out, "ISetParams")
-				continue
-			}
-			out = append(out, "IUnknown "+coqStr(x))
-		case *ast.AssignStmt:
-			if len(s.Lhs) == 2 && len(s.Rhs) == 1 && src(s.Rhs[0]) == "sdk.AccAddressFromBech32("+g+".From)" {
-				fromVar = src(s.Lhs[0])
-				continue // the panic on its error is the following if statement
-			}
-			out = append(out, "IUnknown "+coqStr(src(s)))
-		case *ast.IfStmt:
-			init, c := src(s.Init), src(s.Cond)
-			switch {
-			case s.Init == nil && s.Else == nil && (c == "len("+g+".From) == 0" || c == g+".From == \"\"") && len(s.Body.List) == 1 && src(s.Body.List[0]) == "return":
-				out = append(out, "IStopIfNoFrom")
-			case s.Init == nil && s.Else == nil && c == "err != nil" && fromVar != "" && panics(s.Body):
-				out = append(out, "IParseFrom")
-			case s.Else == nil && c == "err != nil" && panics(s.Body) && fromVar != "" &&
-				(strings.HasSuffix(init, "= "+k+".bankKeeper.SendCoinsFromAccountToModule(ctx, "+fromVar+", types.ModuleName, "+g+".InitReward)")):
-				out = append(out, "ISendToModule "+coqStr(moduleName))
-			default:
-				out = append(out, "IUnknown "+coqStr(src(s)))
-			}
-		default:
-			out = append(out, "IUnknown "+coqStr(src(st)))
-		}
-	}
-	return out
-}
-
-func exportShape(kf, tf *ast.File) string {
-	fd := funcDecl(kf, "Keeper", "ExportGenesis")
-	if fd == nil || fd.Body == nil {
-		return "EUnknown"
-	}
-	k := fd.Recv.List[0].Names[0].Name
-	ok := false
-	switch len(fd.Body.List) {
-	case 1:
-		ok = src(fd.Body.List[0]) == "return types.NewGenesisState("+k+".GetParams(ctx))"
-	case 2:
-		if a, isA := fd.Body.List[0].(*ast.AssignStmt); isA && len(a.Lhs) == 1 && len(a.Rhs) == 1 && src(a.Rhs[0]) == k+".GetParams(ctx)" {
-			ok = src(fd.Body.List[1]) == "return types.NewGenesisState("+src(a.Lhs[0])+")"
-		}
-	}
-	if !ok {
-		return "EUnknown"
-	}
-	// NewGenesisState(params) must return {Params: params, From: "", InitReward: <empty>}
-	ng := funcDecl(tf, "", "NewGenesisState")
-	if ng == nil || len(ng.Type.Params.List) != 1 || len(ng.Type.Params.List[0].Names) != 1 {
-		return "EUnknown"
-	}
-	p := ng.Type.Params.List[0].Names[0].Name
-	lit := returnedLiteral(ng, "GenesisState")
-	if lit == nil || src(lit["Params"]) != p {
-		return "EUnknown"
-	}
-	if fr, has := lit["From"]; has && src(fr) != `""` {
-		return "EUnknown"
-	}
-	if ir, has := lit["InitReward"]; has {
-		e := &evalCtx{}
-		cs, ok := e.evalCoins(ir)
-		if !(ok && len(cs) == 0) && src(ir) != "nil" {
-			return "EUnknown"
-		}
-	}
-	return "EParamsOnly"
-}
-
-// ---------------------------------------------------------------- keeper.go
-
-func keeperWiring(f *ast.File, moduleName string) (sender, recipField, remaining string, feeParamIdx int) {
-	sender, recipField, remaining, feeParamIdx = "?", "?", "?", -1
-	if fd := funcDecl(f, "Keeper", "SendVestedCoins"); fd != nil && fd.Body != nil && len(fd.Body.List) == 1 {
-		if r, ok := fd.Body.List[0].(*ast.ReturnStmt); ok && len(r.Results) == 1 {
-			if c, ok := r.Results[0].(*ast.CallExpr); ok && strings.HasSuffix(src(c.Fun), ".bankKeeper.SendCoinsFromModuleToModule") && len(c.Args) == 4 &&
-				len(fd.Type.Params.List) == 2 && src(c.Args[3]) == fd.Type.Params.List[1].Names[0].Name {
-				if src(c.Args[1]) == "types.ModuleName" {
-					sender = moduleName
-				} else {
-					sender = "?" + src(c.Args[1])
-				}
-				k := fd.Recv.List[0].Names[0].Name
-				recipField = strings.TrimPrefix(src(c.Args[2]), k+".")
-			}
-		}
-	}
-	if fd := funcDecl(f, "Keeper", "GetRemainingCoin"); fd != nil && fd.Body != nil && len(fd.Body.List) == 2 && len(fd.Type.Params.List) == 2 {
-		k := fd.Recv.List[0].Names[0].Name
-		denom := fd.Type.Params.List[1].Names[0].Name
-		if a, ok := fd.Body.List[0].(*ast.AssignStmt); ok && len(a.Lhs) == 1 && len(a.Rhs) == 1 {
-			addr := src(a.Lhs[0])
-			if src(a.Rhs[0]) == k+".accountKeeper.GetModuleAddress(types.ModuleName)" &&
-				src(fd.Body.List[1]) == "return "+k+".bankKeeper.GetBalance(ctx, "+addr+", "+denom+")" {
-				remaining = moduleName
-			}
-		}
-	}
-	if fd := funcDecl(f, "", "NewKeeper"); fd != nil && fd.Body != nil {
-		var names []string
-		for _, fl := range fd.Type.Params.List {
-			for _, n := range fl.Names {
-				names = append(names, n.Name)
-			}
-		}
-		ast.Inspect(fd.Body, func(n ast.Node) bool {
-			kv, ok := n.(*ast.KeyValueExpr)
-			if ok && src(kv.Key) == recipField {
-				for i, nm := range names {
-					if nm == src(kv.Value) {
-						feeParamIdx = i
-					}
-				}
-			}
-			return true
-		})
-	}
-	return
-}
-
 func interfaceMethods(f *ast.File, name string) []string {
 	var out []string
+	if f == nil {
+		return []string{"?missing file"}
+	}
 	for _, d := range f.Decls {
 		gd, ok := d.(*ast.GenDecl)
 		if !ok || gd.Tok != token.TYPE {
@@ -793,20 +1814,11 @@ func interfaceMethods(f *ast.File, name string) []string {
 	return out
 }
 
-// ---------------------------------------------------------------- app.go
-
-type appInfo struct {
-	macc          [][2]interface{} // name, perms
-	allowed       []string
-	beginOrder    []string
-	initOrder     []string
-	rvFeeArg      string
-	distrFeeArg   string
-	rvKeeperFound bool
-}
-
 func mapLiteral(f *ast.File, name string) *ast.CompositeLit {
 	var found *ast.CompositeLit
+	if f == nil {
+		return nil
+	}
 	ast.Inspect(f, func(n ast.Node) bool {
 		vs, ok := n.(*ast.ValueSpec)
 		if !ok {
@@ -826,6 +1838,9 @@ func mapLiteral(f *ast.File, name string) *ast.CompositeLit {
 
 func callArgs(f *ast.File, suffix string) [][]ast.Expr {
 	var out [][]ast.Expr
+	if f == nil {
+		return nil
+	}
 	ast.Inspect(f, func(n ast.Node) bool {
 		c, ok := n.(*ast.CallExpr)
 		if ok && strings.HasSuffix(src(c.Fun), suffix) {
@@ -836,42 +1851,77 @@ func callArgs(f *ast.File, suffix string) [][]ast.Expr {
 	return out
 }
 
+// ---------------------------------------------------------------- main
+
+func bodyOf(f *ast.File, name string) *ast.BlockStmt {
+	if f == nil {
+		return nil
+	}
+	if fd := funcDecl(f, "", name); fd != nil {
+		return fd.Body
+	}
+	return nil
+}
+
 func main() {
 	repo := flag.String("repo", "/repo", "source tree")
 	out := flag.String("out", "", "output directory (coq/theories/Gen)")
 	flag.Parse()
 	if *out == "" {
-		die("-out required")
+		fmt.Fprintln(os.Stderr, "rvesting: -out required")
+		os.Exit(1)
 	}
+	defer func() {
+		// never fail because of the source: whatever went wrong, the previous Gen file (if any) stays and the
+		// obligations of C20 decide
+		if r := recover(); r != nil {
+			fmt.Fprintf(os.Stderr, "rvesting: internal error %v (Gen file left as it was)\n", r)
+		}
+	}()
 
 	keysF := parse(*repo, "x/rvesting/types/keys.go")
 	paramF := parse(*repo, "x/rvesting/types/param.go")
 	genF := parse(*repo, "x/rvesting/types/genesis.go")
 	expF := parse(*repo, "x/rvesting/types/expected_keeper.go")
-	kgenF := parse(*repo, "x/rvesting/keeper/genesis.go")
-	keeperF := parse(*repo, "x/rvesting/keeper/keeper.go")
 	appF := parse(*repo, "app/app.go")
 	coinF := parse(*repo, "types/coin.go")
+	typesFiles := parseDir(*repo, "x/rvesting/types")
+	keeperFiles := parseDir(*repo, "x/rvesting/keeper")
+	moduleFiles := parseDir(*repo, "x/rvesting/module")
 
 	moduleName, ok := stringConsts(keysF)["ModuleName"]
 	if !ok {
+		for _, f := range typesFiles {
+			if s, ok2 := stringConsts(f)["ModuleName"]; ok2 {
+				moduleName, ok = s, true
+			}
+		}
+	}
+	if !ok {
 		moduleName = "?ModuleName"
 	}
-	pconsts := stringConsts(paramF)
+	pconsts := map[string]string{}
+	for _, f := range typesFiles {
+		for k, v := range stringConsts(f) {
+			pconsts[k] = v
+		}
+	}
 	ftypes := fieldTypes(*repo)
 
-	lg, cg := rewardGuards(paramF)
-	pairs := paramPairs(paramF, pconsts, ftypes)
+	pairs := paramPairs(paramF, pconsts, ftypes) // also finds the reward validator's name
+	lg, cg := rewardGuards(typesFiles, rewardValidator)
 	shape := validateShape(paramF)
 
 	ectx := &evalCtx{repoTypes: stringConsts(coinF), teleFns: map[string]*ast.FuncDecl{}}
-	for _, d := range coinF.Decls {
-		if fd, ok := d.(*ast.FuncDecl); ok && fd.Recv == nil {
-			ectx.teleFns[fd.Name.Name] = fd
+	if coinF != nil {
+		for _, d := range coinF.Decls {
+			if fd, ok := d.(*ast.FuncDecl); ok && fd.Recv == nil {
+				ectx.teleFns[fd.Name.Name] = fd
+			}
 		}
 	}
 	defEnable, defRewards, defKnown := "false", "[]", "false"
-	if lit := returnedLiteral(funcDecl(paramF, "", "DefaultParams"), "Params"); lit != nil {
+	if lit := returnedLiteral(bodyOf(paramF, "DefaultParams"), "Params"); lit != nil {
 		en := src(lit["EnableVesting"])
 		cs, ok := ectx.evalCoins(lit["PerBlockReward"])
 		if (en == "true" || en == "false" || en == "") && ok {
@@ -881,9 +1931,8 @@ func main() {
 			defEnable, defRewards, defKnown = en, coqCoins(cs), "true"
 		}
 	}
-	// DefaultGenesisState: {Params: DefaultParams(), From: "", InitReward: empty}
 	defGenesisPlain := "false"
-	if lit := returnedLiteral(funcDecl(genF, "", "DefaultGenesisState"), "GenesisState"); lit != nil {
+	if lit := returnedLiteral(bodyOf(genF, "DefaultGenesisState"), "GenesisState"); lit != nil {
 		okp := src(lit["Params"]) == "DefaultParams()"
 		okf := lit["From"] == nil || src(lit["From"]) == `""`
 		oki := lit["InitReward"] == nil || src(lit["InitReward"]) == "nil"
@@ -896,13 +1945,12 @@ func main() {
 		}
 	}
 
-	gv := validateGenesisSteps(genF)
-	is := initGenesisSteps(kgenF, moduleName)
-	es := exportShape(kgenF, genF)
-	sender, recipField, remaining, feeIdx := keeperWiring(keeperF, moduleName)
+	gv := validateGenesisSteps(typesFiles)
+	is := initGenesisSteps(keeperFiles, moduleName)
+	es := exportShape(keeperFiles, typesFiles)
+	wr := beginBlockWiring(moduleFiles, keeperFiles, moduleName)
 	bankMethods := interfaceMethods(expF, "BankKeeper")
 
-	// app.go
 	var maccRows []string
 	if cl := mapLiteral(appF, "maccPerms"); cl != nil {
 		for _, el := range cl.Elts {
@@ -947,8 +1995,8 @@ func main() {
 	beginOrder := order(".SetOrderBeginBlockers")
 	initOrder := order(".SetOrderInitGenesis")
 	rvFee, distrFee := "?", "?"
-	if c := callArgs(appF, "rvestingkeeper.NewKeeper"); len(c) == 1 && feeIdx >= 0 && feeIdx < len(c[0]) {
-		rvFee = src(c[0][feeIdx])
+	if c := callArgs(appF, "rvestingkeeper.NewKeeper"); len(c) == 1 && wr.feeParamIdx >= 0 && wr.feeParamIdx < len(c[0]) {
+		rvFee = src(c[0][wr.feeParamIdx])
 	}
 	// cosmos-sdk v0.45 distrkeeper.NewKeeper(cdc, key, paramSpace, ak, bk, sk, feeCollectorName, blockedAddrs)
 	if c := callArgs(appF, "distrkeeper.NewKeeper"); len(c) == 1 && len(c[0]) == 8 {
@@ -963,19 +2011,24 @@ func main() {
 	w("Definition key_enable_vesting : bytes := %s.\n", coqStr(pconsts["KeyEnableVesting"]))
 	w("Definition key_per_block_reward : bytes := %s.\n\n", coqStr(pconsts["KeyPerBlockReward"]))
 	w("(* x/rvesting/types/param.go: Params.ParamSetPairs, field types from genesis.pb.go *)\nDefinition param_pairs : list ppair := %s.\n\n", coqList(pairs))
-	w("(* x/rvesting/types/param.go: validatePerBlockReward, rejecting statements outside / inside the loop, source order *)\n")
+	w("(* x/rvesting/types: %s with its helpers inlined; rejecting tests outside / inside the loop over the list, evaluation order *)\n", rewardValidator)
 	w("Definition reward_list_guards : list lguard := %s.\n", coqList(lg))
 	w("Definition reward_coin_guards : list cguard := %s.\n\n", coqList(cg))
 	w("(* x/rvesting/types/param.go: Params.validate *)\nDefinition params_validate_shape : pvshape := %s.\n\n", shape)
 	w("(* x/rvesting/types/param.go: DefaultParams (evaluated; types.NewTeleCoin resolved through types/coin.go) *)\n")
 	w("Definition default_params_known : bool := %s.\nDefinition default_enable : bool := %s.\nDefinition default_rewards : list (bytes * Z) := %s.\n\n", defKnown, defEnable, defRewards)
 	w("(* x/rvesting/types/genesis.go: DefaultGenesisState = {DefaultParams(), From empty, no InitReward} *)\nDefinition default_genesis_plain : bool := %s.\n\n", defGenesisPlain)
-	w("(* x/rvesting/types/genesis.go: ValidateGenesis; true = under `if len(data.From) != 0` *)\nDefinition validate_genesis_steps : list (bool * gvstep) := %s.\n\n", coqList(gv))
-	w("(* x/rvesting/keeper/genesis.go: (Keeper).InitGenesis *)\nDefinition init_genesis_steps : list istep := %s.\n\n", coqList(is))
-	w("(* x/rvesting/keeper/genesis.go: (Keeper).ExportGenesis + types.NewGenesisState *)\nDefinition export_genesis_shape : eshape := %s.\n\n", es)
-	w("(* x/rvesting/keeper/keeper.go: SendVestedCoins = bank.SendCoinsFromModuleToModule(sender, k.<field>, coins) *)\n")
-	w("Definition vest_sender : bytes := %s.\nDefinition vest_recipient_field : bytes := %s.\n", coqStr(sender), coqStr(recipField))
-	w("(* x/rvesting/keeper/keeper.go: GetRemainingCoin reads the balance of this module account *)\nDefinition remaining_account : bytes := %s.\n\n", coqStr(remaining))
+	w("(* x/rvesting/types: ValidateGenesis with helpers inlined; true = evaluated only when From is not empty *)\nDefinition validate_genesis_steps : list (bool * gvstep) := %s.\n\n", coqList(gv))
+	w("(* x/rvesting/keeper: Keeper.InitGenesis with helpers inlined; true = executed only when From is not empty *)\nDefinition init_genesis_steps : list (bool * istep) := %s.\n\n", coqList(is))
+	w("(* x/rvesting/keeper: Keeper.ExportGenesis + types.NewGenesisState *)\nDefinition export_genesis_shape : eshape := %s.\n\n", es)
+	w("(* bank calls reachable from BeginBlocker (x/rvesting/module + keeper, helpers inlined): the only coin movement is\n   bank.SendCoinsFromModuleToModule(sender, k.<field>, coins); balances are read from one account *)\n")
+	w("Definition vest_sender : bytes := %s.\nDefinition vest_recipient_field : bytes := %s.\n", coqStr(wr.sender), coqStr(wr.recipField))
+	w("Definition remaining_account : bytes := %s.\n", coqStr(wr.remaining))
+	var bc []string
+	for _, m := range wr.bankMethods {
+		bc = append(bc, coqStr(m))
+	}
+	w("Definition begin_block_bank_calls : list bytes := %s.\n\n", coqList(bc))
 	var bm []string
 	for _, m := range bankMethods {
 		bm = append(bm, coqStr(m))
@@ -985,18 +2038,19 @@ func main() {
 	w("(* app/app.go: allowedReceivingModAcc (entries set to true) *)\nDefinition allowed_receiving : list bytes := %s.\n\n", coqList(allowed))
 	w("(* app/app.go: app.mm.SetOrderBeginBlockers *)\nDefinition begin_blockers : list bytes := %s.\n\n", coqList(beginOrder))
 	w("(* app/app.go: app.mm.SetOrderInitGenesis *)\nDefinition init_genesis_order : list bytes := %s.\n\n", coqList(initOrder))
-	w("(* app/app.go: the argument of rvestingkeeper.NewKeeper that becomes Keeper.%s, and the feeCollectorName argument of distrkeeper.NewKeeper *)\n", recipField)
+	w("(* app/app.go: the argument of rvestingkeeper.NewKeeper that becomes Keeper.%s, and the feeCollectorName argument of distrkeeper.NewKeeper *)\n", wr.recipField)
 	w("Definition rv_fee_collector_arg : bytes := %s.\nDefinition distr_fee_collector_arg : bytes := %s.\n", coqStr(rvFee), coqStr(distrFee))
 
 	body := b.String()
 	sum := sha256.Sum256([]byte(body))
-	text := "(* GENERATED by tools/gotocoq/rvesting from x/rvesting/{types,keeper} and app/app.go - do not edit. *)\n" +
+	text := "(* GENERATED by tools/gotocoq/rvesting from x/rvesting/{types,keeper,module} and app/app.go - do not edit. *)\n" +
 		fmt.Sprintf("(* content-hash: %x *)\n", sum) + body
 	path := filepath.Join(*out, "RvestingGen.v")
 	if old, err := os.ReadFile(path); err == nil && string(old) == text {
 		return
 	}
 	if err := os.WriteFile(path, []byte(text), 0o644); err != nil {
-		die("%v", err)
+		fmt.Fprintf(os.Stderr, "rvesting: %v\n", err)
+		os.Exit(1)
 	}
 }
